@@ -355,8 +355,23 @@ def run_shard(spec):
         if spec["shard"] % 2 == 0 or not quick:
             deep_reorganisation(mon, rng)
         two_thread_lane(mon, rng, 1 if quick else 10)
+        if spec["shard"] % 4 == 3:
+            from skv import cstream
+            route_lane(mon.v, mon.c, rng, 3 if quick else 20, dict(cstream.C01_CLASSES), "c03r")
     return {"evaluations": mon.c["adds"], "digests": sorted(mon.digests), "violations": mon.viol, "counters": mon.c,
             "samples": mon.samples}
+
+
+def route_lane(add_violation, counters, rng, nhist, classes, tag):
+    """this property on the routes by which a RUNNING NODE takes blocks (relay and download, real store): histories in which the
+    node had asked a peer for blocks, blocks were announced, arrived unrequested, late, before their parent, or again with another
+    body (the stories of skv/props/c09.py), built from this check's classes of rule-breaking blocks"""
+    from skv.props import c09
+    mon = c09.route_histories(rng, nhist, 14, classes, tag)
+    counters["route_lane_deliveries"] = counters.get("route_lane_deliveries", 0) + mon.c.get("deliveries", 0)
+    counters["route_lane_stories"] = counters.get("route_lane_stories", 0) + mon.c.get("download_route_stories", 0)
+    for v in mon.viol:
+        add_violation("node-route:" + v["key"], v["msg"], v["witness"])
 
 
 def finalize(m, tier):
